@@ -147,15 +147,52 @@ func endsWithNumber(e ast.Expression) (yes bool) {
 	return false
 }
 
-// defaultAsOperand reports whether the tree has a `default` expression that is not the root, an
-// argument, an index or a right-most operand… conservatively: anywhere but the root.
-func defaultBelowRoot(e ast.Expression) (found bool) {
-	walkAll(reflect.ValueOf(e), func(n ast.Node) {
-		if d, ok := n.(*ast.Default); ok && ast.Expression(d) != e {
+// defaultBelowRoot reports whether the tree has a `default` expression in a position where the
+// printer loses it (known finding default-operand): anywhere but the root of a parseExpr call
+// (whole expression, argument, index, bound, array length, right side of another `default`).
+func defaultBelowRoot(e ast.Expression) bool { return dfltBad(e, true) }
+
+func dfltBad(e ast.Expression, root bool) bool {
+	if e == nil || reflect.ValueOf(e).IsNil() {
+		return false
+	}
+	switch n := e.(type) {
+	case *ast.Default:
+		return !root || dfltBad(n.Expr1, false) || dfltBad(n.Expr2, true)
+	case *ast.UnaryOperator:
+		return dfltBad(n.Expr, false)
+	case *ast.BinaryOperator:
+		return dfltBad(n.Expr1, false) || dfltBad(n.Expr2, false)
+	case *ast.Call:
+		bad := dfltBad(n.Func, false)
+		for _, a := range n.Args {
+			bad = bad || dfltBad(a, true)
+		}
+		return bad
+	case *ast.Index:
+		return dfltBad(n.Expr, false) || dfltBad(n.Index, true)
+	case *ast.Slicing:
+		return dfltBad(n.Expr, false) || dfltBad(n.Low, true) || dfltBad(n.High, true) || dfltBad(n.Max, true)
+	case *ast.Selector:
+		return dfltBad(n.Expr, false)
+	case *ast.TypeAssertion:
+		return dfltBad(n.Expr, false) || dfltBad(n.Type, false)
+	case *ast.ArrayType:
+		return dfltBad(n.Len, true) || dfltBad(n.ElementType, false)
+	case *ast.SliceType:
+		return dfltBad(n.ElementType, false)
+	case *ast.MapType:
+		return dfltBad(n.KeyType, false) || dfltBad(n.ValueType, false)
+	case *ast.ChanType:
+		return dfltBad(n.ElementType, false)
+	}
+	found := false
+	walkAll(reflect.ValueOf(e), func(x ast.Node) {
+		if _, ok := x.(*ast.Default); ok {
 			found = true
 		}
 	})
-	return
+	return found
 }
 
 func (g *gen) ident() *ast.Identifier {
@@ -165,9 +202,48 @@ func (g *gen) ident() *ast.Identifier {
 	return ast.NewIdentifier(nil, g.r.Pick([]string{"a", "b", "c", "f", "x", "y", "T", "pkg", "x1", "_x", "é"}))
 }
 
+// the literals of the Lean fragment: kind, protocol letter, texts (the index is the model's n;
+// int literals are their own decimal value)
+var litTables = []struct {
+	typ    ast.LiteralType
+	name   string // Go constant, protocol word of the kind
+	letter string
+	token  string // token type name of the real lexer
+	texts  []string
+}{
+	{ast.StringLiteral, "StringLiteral", "s", "string", []string{`"s"`, `""`, "`r`", `"a b"`}},
+	{ast.RuneLiteral, "RuneLiteral", "r", "rune", []string{`'c'`, `'\n'`}},
+	{ast.IntLiteral, "IntLiteral", "n", "int", nil},
+	{ast.FloatLiteral, "FloatLiteral", "f", "float", []string{"1.5", "0.", "2.5e3", ".5"}},
+	{ast.ImaginaryLiteral, "ImaginaryLiteral", "m", "imaginary", []string{"2i", "1.5i"}},
+}
+
+// litIndex gives the model's index of a literal text of the given kind.
+func litIndex(typ ast.LiteralType, text string) (int, bool) {
+	for _, t := range litTables {
+		if t.typ != typ {
+			continue
+		}
+		if t.texts == nil {
+			v, err := strconv.Atoi(text)
+			return v, err == nil && strconv.Itoa(v) == text
+		}
+		for i, x := range t.texts {
+			if x == text {
+				return i, true
+			}
+		}
+	}
+	return 0, false
+}
+
 func (g *gen) literal() *ast.BasicLiteral {
 	if g.cfg.modelOnly {
-		return ast.NewBasicLiteral(nil, ast.IntLiteral, strconv.Itoa(g.r.Intn(10)))
+		t := litTables[g.r.Intn(len(litTables))]
+		if g.r.Bool() || t.texts == nil {
+			return ast.NewBasicLiteral(nil, ast.IntLiteral, strconv.Itoa(g.r.Intn(10)))
+		}
+		return ast.NewBasicLiteral(nil, t.typ, t.texts[g.r.Intn(len(t.texts))])
 	}
 	switch g.r.Intn(7) {
 	case 0:
@@ -187,6 +263,9 @@ func (g *gen) literal() *ast.BasicLiteral {
 // type that ends in a result-less function type swallows the argument list: known finding
 // conversion-func-type).
 func (g *gen) convType() ast.Expression {
+	if g.cfg.modelOnly {
+		return g.typ(2)
+	}
 	g.noFunc = true
 	defer func() { g.noFunc = false }()
 	if g.r.Intn(5) == 0 {
@@ -204,11 +283,29 @@ func (g *gen) convType() ast.Expression {
 
 // typ generates a type expression.
 func (g *gen) typ(depth int) ast.Expression {
+	t := g.typ0(depth)
+	if g.r.Intn(10) == 0 {
+		t.SetParenthesis(1)
+	}
+	return t
+}
+
+func (g *gen) typeName() *ast.Identifier {
+	if g.cfg.modelOnly {
+		return g.ident()
+	}
+	return ast.NewIdentifier(nil, g.r.Pick([]string{"int", "string", "T", "bool"}))
+}
+
+func (g *gen) typ0(depth int) ast.Expression {
 	if depth <= 0 {
-		return ast.NewIdentifier(nil, g.r.Pick([]string{"int", "string", "T", "bool"}))
+		return g.typeName()
 	}
 	switch g.r.Intn(9) {
 	case 0:
+		if g.cfg.modelOnly {
+			return ast.NewSelector(nil, g.ident(), g.ident().Name)
+		}
 		return ast.NewSelector(nil, ast.NewIdentifier(nil, "pkg"), "T")
 	case 1:
 		return ast.NewUnaryOperator(nil, ast.OperatorPointer, g.typ(depth-1))
@@ -217,17 +314,23 @@ func (g *gen) typ(depth int) ast.Expression {
 	case 3:
 		return ast.NewMapType(nil, g.typ(depth-1), g.typ(depth-1))
 	case 4:
+		if g.cfg.modelOnly {
+			return ast.NewChanType(nil, ast.ChanDirection(g.r.Intn(3)), g.typ(depth-1))
+		}
 		return ast.NewChanType(nil, ast.ChanDirection(g.r.Intn(3)), g.typ(0))
 	case 5:
 		if g.r.Bool() {
 			return ast.NewArrayType(nil, nil, g.typ(depth-1))
 		}
+		if g.cfg.modelOnly {
+			return ast.NewArrayType(nil, g.rootExpr(1), g.typ(depth-1))
+		}
 		return ast.NewArrayType(nil, ast.NewBasicLiteral(nil, ast.IntLiteral, "3"), g.typ(depth-1))
 	case 6:
 		return ast.NewInterface(nil)
 	case 7:
-		if g.noFunc {
-			return ast.NewIdentifier(nil, "T")
+		if g.noFunc || g.cfg.modelOnly {
+			return g.typeName()
 		}
 		var params, result []*ast.Parameter
 		for i := g.r.Intn(3); i > 0; i-- {
@@ -238,8 +341,32 @@ func (g *gen) typ(depth int) ast.Expression {
 		}
 		return ast.NewFuncType(nil, false, params, result, false)
 	default:
-		return ast.NewIdentifier(nil, g.r.Pick([]string{"int", "string", "T", "bool"}))
+		return g.typeName()
 	}
+}
+
+// rootExpr generates an expression for a position that is the root of a parseExpr call of its
+// own (argument, index, bound, array length, right side of `default`): a `default` expression
+// is allowed there.
+func (g *gen) rootExpr(depth int) ast.Expression {
+	if g.cfg.d == template && depth > 0 && g.r.Intn(8) == 0 {
+		var left ast.Expression = g.ident()
+		if g.r.Bool() {
+			left = ast.NewCall(nil, g.ident(), nil, false)
+		}
+		if g.r.Intn(4) == 0 {
+			left.SetParenthesis(1)
+		}
+		d := ast.NewDefault(nil, left, g.rootExpr(depth-1))
+		if g.r.Intn(6) == 0 {
+			d.SetParenthesis(1)
+		}
+		return d
+	}
+	if depth > 0 && g.r.Intn(12) == 0 {
+		return g.typ(2) // a type as a value, as in make([]T, n)
+	}
+	return g.expr(depth)
 }
 
 func (g *gen) unaryOp() ast.OperatorType {
@@ -276,9 +403,6 @@ func (g *gen) expr0(depth int) ast.Expression {
 		return g.ident()
 	}
 	n := 14
-	if g.cfg.modelOnly {
-		n = 9
-	}
 	switch k := g.r.Intn(n); k {
 	case 0, 1, 2:
 		return ast.NewBinaryOperator(nil, g.binaryOp(), g.expr(depth-1), g.expr(depth-1))
@@ -287,7 +411,7 @@ func (g *gen) expr0(depth int) ast.Expression {
 	case 5:
 		var args []ast.Expression
 		for i := g.r.Intn(4); i > 0; i-- {
-			args = append(args, g.expr(depth-1))
+			args = append(args, g.rootExpr(depth-1))
 		}
 		variadic := len(args) > 0 && g.r.Intn(4) == 0
 		if variadic && endsWithNumber(args[len(args)-1]) {
@@ -295,7 +419,7 @@ func (g *gen) expr0(depth int) ast.Expression {
 		}
 		return ast.NewCall(nil, g.operandOf(depth-1, true), args, variadic)
 	case 6:
-		return ast.NewIndex(nil, g.operandOf(depth-1, false), g.expr(depth-1))
+		return ast.NewIndex(nil, g.operandOf(depth-1, false), g.rootExpr(depth-1))
 	case 7:
 		name := g.r.Pick([]string{"F", "g", "x1"})
 		if g.cfg.modelOnly {
@@ -308,20 +432,20 @@ func (g *gen) expr0(depth int) ast.Expression {
 		var lo, hi, max ast.Expression
 		full := g.r.Intn(3) == 0
 		if g.r.Bool() {
-			lo = g.expr(depth - 1)
+			lo = g.rootExpr(depth - 1)
 		}
 		if full || g.r.Bool() {
-			hi = g.expr(depth - 1)
+			hi = g.rootExpr(depth - 1)
 		}
 		if full {
-			max = g.expr(depth - 1)
+			max = g.rootExpr(depth - 1)
 		}
 		return ast.NewSlicing(nil, g.operandOf(depth-1, false), lo, hi, max, full)
 	case 10:
 		return ast.NewTypeAssertion(nil, g.noNumber(g.operandOf(depth-1, false)), g.typ(2))
 	case 11:
 		// conversion: type used as the function of a call
-		return ast.NewCall(nil, g.convType(), []ast.Expression{g.expr(depth - 1)}, false)
+		return ast.NewCall(nil, g.convType(), []ast.Expression{g.rootExpr(depth - 1)}, false)
 	case 12:
 		if g.cfg.d == template && depth == g.top {
 			// `a default e`: the left operand must be an identifier or a call
@@ -329,7 +453,7 @@ func (g *gen) expr0(depth int) ast.Expression {
 			if g.r.Bool() {
 				left = ast.NewCall(nil, g.ident(), nil, false)
 			}
-			return ast.NewDefault(nil, left, g.expr(depth-1))
+			return ast.NewDefault(nil, left, g.rootExpr(depth-1))
 		}
 		return ast.NewBinaryOperator(nil, g.binaryOp(), g.expr(depth-1), g.expr(depth-1))
 	default:
@@ -570,6 +694,14 @@ func encodeExpr(e ast.Expression, parens bool) (string, bool) {
 	var b []string
 	ok := true
 	var enc func(e ast.Expression)
+	encOpt := func(e ast.Expression) {
+		if e == nil || reflect.ValueOf(e).IsNil() {
+			b = append(b, "O0")
+			return
+		}
+		b = append(b, "O1")
+		enc(e)
+	}
 	enc = func(e ast.Expression) {
 		if e == nil || reflect.ValueOf(e).IsNil() {
 			ok = false
@@ -589,12 +721,16 @@ func encodeExpr(e ast.Expression, parens bool) (string, bool) {
 			}
 			b = append(b, "I", strconv.Itoa(i))
 		case *ast.BasicLiteral:
-			v, err := strconv.Atoi(n.Value)
-			if n.Type != ast.IntLiteral || err != nil || strconv.Itoa(v) != n.Value {
+			idx, found := litIndex(n.Type, n.Value)
+			if !found {
 				ok = false
 				return
 			}
-			b = append(b, "L", n.Value)
+			for _, t := range litTables {
+				if t.typ == n.Type {
+					b = append(b, "L", t.name, strconv.Itoa(idx))
+				}
+			}
 		case *ast.UnaryOperator:
 			b = append(b, "U", opNames[n.Op])
 			enc(n.Expr)
@@ -625,6 +761,40 @@ func encodeExpr(e ast.Expression, parens bool) (string, bool) {
 			b = append(b, "S")
 			enc(n.Expr)
 			b = append(b, strconv.Itoa(i))
+		case *ast.Slicing:
+			v := "0"
+			if n.IsFull {
+				v = "1"
+			}
+			b = append(b, "Z", v)
+			enc(n.Expr)
+			encOpt(n.Low)
+			encOpt(n.High)
+			encOpt(n.Max)
+		case *ast.TypeAssertion:
+			b = append(b, "T")
+			enc(n.Expr)
+			enc(n.Type)
+		case *ast.Default:
+			b = append(b, "D")
+			enc(n.Expr1)
+			enc(n.Expr2)
+		case *ast.SliceType:
+			b = append(b, "TS")
+			enc(n.ElementType)
+		case *ast.ArrayType:
+			b = append(b, "TA")
+			encOpt(n.Len)
+			enc(n.ElementType)
+		case *ast.MapType:
+			b = append(b, "TM")
+			enc(n.KeyType)
+			enc(n.ValueType)
+		case *ast.ChanType:
+			b = append(b, "TC", []string{"NoDirection", "ReceiveDirection", "SendDirection"}[n.Direction])
+			enc(n.ElementType)
+		case *ast.Interface:
+			b = append(b, "TI")
 		default:
 			ok = false
 		}
@@ -642,12 +812,15 @@ func tokenWord(typ, text string) (string, bool) {
 			return "", false
 		}
 		return "i" + strconv.Itoa(i), true
-	case "int":
-		v, err := strconv.Atoi(text)
-		if err != nil || strconv.Itoa(v) != text {
-			return "", false
+	}
+	for _, t := range litTables {
+		if t.token == typ {
+			i, ok := litIndex(t.typ, text)
+			if !ok {
+				return "", false
+			}
+			return t.letter + strconv.Itoa(i), true
 		}
-		return "n" + text, true
 	}
 	if strings.ContainsAny(text, " \t\r\n") || text == "" {
 		return "", false
